@@ -141,7 +141,7 @@ func (w *worldA) Decode(raw json.RawMessage) (any, error) {
 var aSeverities = []string{"off", "fatal", "crit", "error", "warn", "notice", "info", "debug"}
 
 func (s *AScenario) configYAML(variant string) string {
-	fields := "facility, level, time, host, app, pid, source, extradata, log, extra1, extra3"
+	fields := "facility, level, time, host, app, pid, source, extradata, log, extra1, extra3, extra4"
 	extra := ""
 	switch variant {
 	case "valid2":
@@ -182,6 +182,9 @@ inputs:
     extractions:
       - type: delFields
         keys: [facility, extradata]
+      - type: addFields
+        fields:
+          extra4: in-$app:$pid
 orchestration:
   type: byKeySet
   keys: [%s]
